@@ -208,8 +208,9 @@ CLAIMED = {
              '(spec/data-url.abnf: "data:" media-type [";base64"] "," data), for ALL ascii texts: DataUrlDelimiters::parse returns Some exactly on that shape and its three results are the '
              'specification positions/flag; DataUrlPartsRef::parse (= parse + into_parts, i.e. the code of the owned accessors on the stored offsets) and the three re-scanning accessors of the borrowed form '
              '(media_type, is_base_64_encoded, encoded_data) return exactly the specification spans on every text of the shape — hence borrowed and owned views agree and reassemble the text; '
-             'every scanner terminates (no cycle of abstract states that reads no input) and never slices out of bounds. Structural rules (MIR terms, dominators): both constructors validate the whole '
-             'input with Uri/UriBuf::new, run the single parse on that text, succeed exactly when it returns Some, store exactly its result; the owned form is immutable; unchecked constructors are unsafe.',
+             'every scanner terminates (no cycle of abstract states that reads no input) and never slices out of bounds. The two constructors are executed the same way (Uri/UriBuf::new summarised as the '
+             'C01 validator, once under the hypothesis “valid URI” with the specification restricted to L(URI), once under “not a URI”): Ok exactly for a valid URI of the documented shape, the value is the validated '
+             'text (owned: with the specification delimiters stored), otherwise the input is handed back. Structural rules: the owned form is immutable, no public field, unchecked constructors are unsafe, owned accessors read the stored delimiters.',
         design_ref='DESIGN.md §4 C18, §10.6 (Engine S)',
         note='Trusted: summaries of str::strip_prefix / char_indices / chars / Iterator::next / slicing / == (iv/strscan.py) for ascii text; ascii-ness of a valid URI (C01). NOT decided: base64 decoding of decoded_data (the base64 crate). '
              'The media-type alphabet of the specification is RFC 6838 restricted-name-chars plus "/" (no parameters), which is what the property calls media-type.',
